@@ -10,7 +10,7 @@ Thorough: compile-fail witness that a result element not borrowed from the queri
 type-check.  Not decided: exactness for all types as a value statement beyond completeness+guards."""
 import re
 
-from vlib import mir, scan, tpl
+from vlib import mir, scan, tpl, sym, resalg
 from . import common
 
 META = dict(
@@ -184,6 +184,9 @@ def visitor_rule(ctx, core, walk):
     return n
 
 
+UNION_RX = r"usage::type_params::union_in_place$|Extend<.*>>::extend$"
+
+
 def run(ctx):
     core = ctx.core("on")
     n1 = visitor_rule(ctx, core, TP)
@@ -214,26 +217,26 @@ def run(ctx):
             ctx.requires("C19.G.leading-segment-only-if-not-global", f, b, "segments[0].ident lookup", [r"is_some\(self\.leading_colon\)=False", ("ne", r"^len\(self\.segments\)$", 0)])
             a0 = ctx.expr(f, t["args"][0])
             ctx.ob("C19.G.first-segment", f.key, "segment index", re.search(r"^self\.segments\[0\]\.ident$", a0) is not None, a0[:120])
-        fold = ctx.find_calls(f, r"Iterator>::fold|Iterator::fold")
-        ok = len(fold) == 1 and "iter(self.segments)" in ctx.expr(f, fold[0][1]["args"][0]).replace("syn::punctuated::Punctuated::<T, P>::", "")
-        ctx.ob("C19.P.arguments-of-every-segment", f.key, "segments.iter().fold(.., arguments walk)", ok, "%s" % [ctx.expr(f, t["args"][0])[:100] for _, t in fold])
+        # every segment's generic arguments are walked and united into the result: a fold over the
+        # segments or a `for` loop over them; the union step is union_in_place(acc, x) or acc.extend(x)
+        un = [h for h in ctx.per_element(f, UNION_RX) if re.search(r"PathArguments as darling_core::usage::type_params::UsesTypeParams>::uses_type_params\(", ctx.expr(h["owner"], h["t"]["args"][1]))]
+        ok = len(un) == 1 and un[0]["form"] in ("adapter", "loop") and "self.segments" in un[0]["source"] and ".arguments" in ctx.expr(un[0]["owner"], un[0]["t"]["args"][1])
+        ctx.ob("C19.P.arguments-of-every-segment", f.key, "segments.iter().fold(.., arguments walk)", ok, "%s" % [(h["form"], h["source"][:100]) for h in un])
         # must-pass-through: the only return that may bypass the argument walk is the empty-path one
-        if fold:
-            avoid = {fold[0][0]}
+        walk = ctx.find_calls(f, r"Iterator>::fold|Iterator::fold") or [(b_, t_) for b_, t_ in ctx.find_calls(f, r"IntoIterator(>)?::into_iter$|Punctuated::<T, P>::iter$") if "self.segments" in ctx.expr(f, t_["args"][0])]
+        if walk:
+            avoid = {walk[0][0]}
             reach = f.reachable(0, False, avoid=avoid)
             bypass = []
             for d0 in f.defs().get(0, []):
                 blk = d0[0]
-                if f.is_cleanup(blk) or blk not in reach or blk == fold[0][0]:
+                if f.is_cleanup(blk) or blk not in reach or blk == walk[0][0]:
                     continue
                 ds = ctx.pc_strs(f, blk)
                 if not (ds and all(ctx._sat(d, r"^len\(self\.segments\)=0$") for d in ds)):
                     bypass.append((blk, [sorted(d) for d in ds]))
             ctx.ob("C19.P.no-return-bypasses-argument-walk", f.key, "returns that skip the segment-argument walk", not bypass,
                    "a result is returned without walking the generic arguments of the segments under %s" % bypass)
-        cl = ctx.closures_of(f)
-        okc = any(ctx.find_calls(c, r"PathArguments as darling_core::usage::type_params::UsesTypeParams>::uses_type_params$") and ctx.find_calls(c, r"union_in_place$") for c in cl)
-        ctx.ob("C19.P.arguments-of-every-segment", f.key, "closure: union_in_place(state, segment.arguments.walk())", okc, "fold closure")
     f = ctx.fn("<proc_macro2::Ident as %s>::%s" % (TP[0], TP[1]))
     if f:
         rs = ctx.ret_values(f)
@@ -257,27 +260,19 @@ def run(ctx):
         if f:
             # every member is walked and its answer united into the result: as a fold over the
             # members or as a `for` loop over them
-            un = ctx.find_calls_deep(f, r"union_in_place$")
+            un = [h for h in ctx.per_element(f, UNION_RX)]
             ok = len(un) == 1
-            why = "%d union_in_place calls" % len(un)
+            why = "%d union steps" % len(un)
             if ok:
-                blk, t, owner = un[0]
-                walked = ctx.expr(owner, t["args"][1])
-                ok = re.search(r"UsesTypeParams(>)?::uses_type_params\(", walked) is not None
-                if owner is f:
-                    nxt = t.get("target")
-                    in_loop = nxt is not None and blk in f.reachable(nxt, False)
-                    it = [ctx.expr(f, t2["args"][0]) for _, t2 in ctx.find_calls(f, r"Iterator>::next$|Iterator::next$")]
-                    ok = ok and in_loop and any("into_iter(self)" in x.replace("IntoIterator>::into_iter", "into_iter").replace("IntoIterator::into_iter", "into_iter") for x in it)
-                    why = "for-loop form: union(%s) in loop=%s over %s" % (walked[:80], in_loop, [x[:80] for x in it])
-                else:
-                    fold = [t2 for _, t2 in ctx.find_calls(f, r"Iterator::fold|Iterator>::fold") if owner.key in ctx.expr(f, t2["args"][2])]
-                    ok = ok and len(fold) == 1 and "into_iter(self)" in ctx.expr(f, fold[0]["args"][0]).replace("IntoIterator>::into_iter", "into_iter").replace("IntoIterator::into_iter", "into_iter")
-                    why = "fold form: %d folds, union(%s)" % (len(fold), walked[:80])
+                h = un[0]
+                walked = ctx.expr(h["owner"], h["t"]["args"][1])
+                src = h["source"].replace("IntoIterator>::into_iter", "into_iter").replace("IntoIterator::into_iter", "into_iter")
+                ok = re.search(r"UsesTypeParams(>)?::uses_type_params\(", walked) is not None and h["form"] in ("adapter", "loop") and "into_iter(self)" in src
+                why = "%s form: union(%s) over %s" % (h["form"], walked[:80], src[:80])
             ctx.ob("C19.P.union-over-members", f.key, "result = union over members of member.walk()", ok, why)
         else:
             ctx.anchor_missing("C19.P.union-over-members", key, "not found")
-    f = ctx.fn("darling_core::usage::type_params::union_in_place")
+    f = ctx.fn("darling_core::usage::type_params::union_in_place", required=False)
     if f:
         ext = ctx.find_calls(f, r"Extend<.*>>::extend")
         rs = ctx.ret_values(f)
@@ -285,18 +280,37 @@ def run(ctx):
     # ---------------------------------------------------------------- bounds
     f = ctx.fn("darling_core::codegen::outer_from_impl::compute_impl_bounds")
     if f:
-        pushes = ctx.find_calls(f, r"Punctuated::<T, P>::push$")
+        # the push may stand in a loop, or in a closure handed to for_each; the parameters it
+        # reaches may be selected by `if` tests around it or by filter / filter_map adapters in front
+        pushes = ctx.find_calls_deep(f, r"Punctuated::<T, P>::push$")
         ctx.ob("C19.G.bound-push-shape", f.key, "one push", len(pushes) == 1, "%d" % len(pushes))
-        for b, t in pushes:
-            ctx.requires("C19.G.bound-only-on-used-type-params", f, b, "typ.bounds.push(bound)", [r"discr\(.*\)=Type$", r"HashSet::<T, S(, A)?>::contains\(a3, .*\.ident\)=True"])
-            tgt = ctx.expr(f, t["args"][0])
-            ctx.ob("C19.G.bound-pushed-on-that-param", f.key, "target", tgt.endswith("as Type).0.bounds"), tgt[:140])
+        keep = []
+        typed_source = bool(ctx.find_calls(f, r"^syn::generics::Generics::type_params_mut$"))
+        s_f, _ = ctx.sym(f)
+        for _, t2 in ctx.find_calls(f, r"Iterator(>)?::(filter|filter_map)$"):
+            cl = sym.strip_transparent(s_f.operand(t2["args"][1]))
+            cb = resalg._closure_body(f.crate, cl[1]) if cl[0] == "closure" else None
+            if cb is None:
+                continue
+            if mir.callee_of(t2).endswith("::filter"):
+                keep.append([set(d) for d in ctx.true_conditions(cb)])
+            else:
+                keep.append([set(c) for c, v in resalg.cases(ctx, cb) if v.startswith("core::option::Option::Some{")])
+        for _, t, owner in pushes:
+            b = [b_ for b_, t_ in owner.calls() if t_ is t][0]
+            combos = [set(d) for d in ctx.pc_strs(owner, b, own=(owner is not f))] or [set()]
+            for dnf in keep:
+                combos = [c | d for c in combos for d in dnf]
+            ok = bool(combos) and all((typed_source or ctx._sat(d, r"discr\(.*\)=Type$")) and ctx._sat(d, r"HashSet::<T, S(, A)?>::contains\((a3|applies_to|\(?\*?_1[^,]*), .*\.ident\)=True") for d in combos)
+            ctx.ob("C19.G.bound-only-on-used-type-params", f.key, "typ.bounds.push(bound)", ok, "pushed under %s" % [sorted(d) for d in combos][:4])
+            tgt = ctx.expr(owner, t["args"][0])
+            ctx.ob("C19.G.bound-pushed-on-that-param", f.key, "target", tgt.endswith(".bounds") and (typed_source or "as Type).0.bounds" in tgt or bool(keep)), tgt[:140])
         rs = ctx.ret_values(f)
         ctx.ob("C19.G.generics-otherwise-unchanged", f.key, "return generics", rs == ["a2"] or all(e == "a2" for e in rs), "%s" % rs)
     f = ctx.fn("darling_core::codegen::trait_impl::TraitImpl::<'a>::used_type_params")
     if f:
-        cl = [ctx.true_conditions(c) for c in ctx.closures_of(f)]
-        ok = len(cl) == 2 and all(p == [{"a2.skip=False"}] for p in cl)
+        cl = common.callable_args_conditions(ctx, f, r"TraitImpl::<'a>::type_params_matching$", (1, 2)) or []
+        ok = len(cl) == 2 and all(p == [{"elem.skip=False"}] for p in cl)
         ctx.ob("C19.G.skipped-fields-and-variants-ignored", f.key, "|f| !f.skip, |v| !v.skip", ok, "filters keep an element under %s" % cl)
     # every walk that feeds the bound computation goes over *fields that passed the field filter*, for
     # struct bodies and for each variant of an enum body alike (walking whole variants would count
